@@ -112,6 +112,8 @@ void vrt_call_end(void);
 /* profile: "off" | "uniform" | "hammer:<id>[,<id>...]" | "heavy" */
 void vrt_delay_profile(const char *profile);
 const char *vrt_delay_profile_name(void);
+/* optional: called at every named runtime point while a delay profile is active */
+extern void (*vrt_point_observer)(int id);
 
 /* ---------- logical clock ---------- */
 uint64_t vrt_ticket(void);
